@@ -247,6 +247,9 @@ def make_history(rng, tier):
                 ops.append(["get_nondefault", k, rng.choice(["adjacency", "borders", "distances"]),
                             {"only_upper": rng.random() < 0.5, "include_opposing_neighbours": rng.random() < 0.5}])
             ops.append(["get", k, rng.choice(gs)])
+        elif r < 0.72:
+            # the live object is replaced by a copy of itself (deepcopy or pickle round trip); the copy must answer like a fresh object
+            ops.append(["copy", rng.randrange(len(objs)), rng.choice(["deepcopy", "pickle"])])
         elif r < 0.74:
             ops.append(["scramble", rng.randrange(len(objs))])   # hostile caller: modifies the last object this grid handed out, in place
         elif r < 0.8:
@@ -295,6 +298,16 @@ def run_history(REC, ops, golden):
                     {"adjacency": obj.get_voronoi_adjacency, "borders": obj.get_cell_borders, "distances": obj.get_center_distances}[g](**opts)
                 except Exception:
                     pass   # its own outcome is not C08's business
+            elif op[0] == "copy":
+                kind, alg, N, t, obj = live[op[1]]
+                try:
+                    import copy, pickle
+                    new = copy.deepcopy(obj) if op[2] == "deepcopy" else pickle.loads(pickle.dumps(obj))
+                except Exception:
+                    REC.notes[f"{op[2]} of a {kind} object not supported (not judged)"] += 1
+                else:
+                    live[op[1]] = (kind, alg, N, t, new)
+                    REC.notes[f"{op[2]} of a {kind} object replaced the live object"] += 1
             elif op[0] == "scramble":
                 res = last.get(op[1])
                 try:
